@@ -108,7 +108,7 @@ def r13_2_validators(ctx):
             ctx.ok("R13.2", vname, {"strings": n}, f.where)
             ctx.instances["R13.2"] = ctx.instances.get("R13.2", 0) + n
     vt = ctx.model.find_func("valid_tmpl", "pyteal.types")
-    for s, want in (("TMPL_A", True), ("TMPL_A_1", True), ("TMPL_", False), ("TMPL_a", False), ("TMPL_A\n", False), ("XTMPL_A", False), ("TMPL_A B", False), ("TMPL_A;", False)):
+    for s, want in (("TMPL_A", True), ("TMPL_A_1", True), ("TMPL_", False), ("TMPL_a", False), ("TMPL_A\n", False), ("XTMPL_A", False), ("TMPL_A B", False), ("TMPL_A;", False), ("TMPL_\u00c9", False), ("TMPL_\u0661", False), ("TMPL_A\u2028", False)):
         try:
             run_function(vt.node, {"s": s}, _oracle_re, vt.fq)
             acc = True
